@@ -545,6 +545,10 @@ def run(ctx):
             cov, nt = _replay_all(ctx, uni.name, walks, "r%d" % rnd_no)
             if not (cov - done) and not (nt - banned):
                 break                                   # no progress
+            if any(v.signature not in SIG.values() for v in ctx.violations):
+                done |= cov
+                todo -= done
+                break                                   # the verdict is a violation already: no re-planning around the broken steps
             done |= cov
             banned |= nt - done
             todo -= done
